@@ -15,7 +15,7 @@ META = {
         "thorough": "every leaf and every adjacent pair of leaves of all shapes of all command codes",
     },
     "outside": "more than two symbolic leaves at once in M/value (all leaves at once are covered for wide types by C13/C02)",
-    "wall_budget_s": {"quick": 270, "thorough": 1500},
+    "wall_budget_s": {"quick": 270, "thorough": 840},
 }
 CORE = ("Startup", "GetCapability", "CreatePrimary", "NV_Read", "StartAuthSession", "PCR_Read")
 
